@@ -209,7 +209,7 @@ def panic_condition(run, f, det):
         if blk.term["k"] != "switch" or blk.idx not in cfg.live:
             continue
         s = strip_wrappers(tr.norm(tr.operand_at(blk.idx, blk.term["discr"])))
-        is_cond = s == ("call", hp, det.hp_def) or (s[0] == "binop" and s[1] == "Eq" and blk.idx in det.region | {det.acquire})
+        is_cond = (s[0] == "call" and s[1] == hp) or (s[0] == "binop" and s[1] == "Eq" and blk.idx in det.region | {det.acquire})
         if is_cond:
             t = blk.term
             tt = [tgt for v, tgt in t["arms"] if int(v) != 0] or [t["otherwise"]]
